@@ -32,7 +32,7 @@ class Prop(BaseProp):
             "unsorted lines); spike_train_from_string with exact repr strings; 0/1 matrices r x c for r,c in 1..6 (incl. 1 x c, "
             "r x 1, all-zero rows) with dyadic and non-dyadic start/bin; scalar edges of python and numpy types. distinct = "
             "(kind, separator, precision, shape, flags)")
-    budget = {"quick": 1200, "thorough": 20000}
+    budget = {"quick": 3000, "thorough": 1000000}
     must_see = ["roundtrip", "precision_17", "precision_1", "empty_train_kept", "empty_train_dropped", "comment_lines", "unsorted_line",
                 "from_string", "timeseries", "timeseries_1xc", "timeseries_rx1", "timeseries_zero_row", "timeseries_nondyadic",
                 "scalar_edge", "numpy_scalar_edge", "last_train_empty"] + ["sep:%r" % s for s in SEPS]
